@@ -133,7 +133,38 @@ FILES_OUT = ['o.out', 'sub/o2.h', 'o ut.c', 'x', '@INPUT@.o']
 def gen_tmpl_cmd(rng):
     n = rng.randint(0, 5)
     k = rng.random()
-    return [rng.choice(TMPL_VOCAB) if rng.random() < (0.0 if k < 0.2 else 0.5) else gen_arg(rng) for _ in range(n)]
+    def one():
+        r = rng.random()
+        if k >= 0.2 and r < 0.3:
+            return rng.choice(TMPL_VOCAB)
+        if k >= 0.2 and r < 0.6:
+            return gen_tmpl_adversarial(rng)
+        return gen_arg(rng)
+    return [one() for _ in range(n)]
+
+
+TMPL_KEYS = ['@INPUT@', '@OUTPUT@', '@INPUT0@', '@INPUT1@', '@OUTPUT0@', '@OUTPUT1@', '@OUTDIR@', '@PLAINNAME@', '@BASENAME@', '@PLAINNAME0@', '@BASENAME0@',
+             '@SOURCE_ROOT@', '@BUILD_ROOT@', '@CURRENT_SOURCE_DIR@']
+TMPL_NEIGH = ['@', '@X', '@X@', '@@', '@HOST@', '@HOST', 'X@', '0', '12', 'x', 'ab', 'X', '@INPUT', 'INPUT@', '@OUT', 'OUTPUT@', '@9@', '@x@', '@Xx@', '@X9@', '@X9', '-', '/', '=', ' ',
+              'owner@HOST', '--tag=@X']
+
+
+def gen_tmpl_adversarial(rng):
+    """One argument: real template keys with hostile neighbours - a preceding / following @, @X, @X@,
+    digits, lower case, another key sharing an @, keys that are prefixes of each other, at either end."""
+    k = rng.random()
+    key = rng.choice(TMPL_KEYS)
+    if k < 0.15:
+        return rng.choice(TMPL_NEIGH) + key
+    if k < 0.3:
+        return key + rng.choice(TMPL_NEIGH)
+    if k < 0.45:
+        other = rng.choice(TMPL_KEYS)
+        return key[:-1] + other if rng.random() < 0.5 else key + other          # sharing the @ / adjacent
+    if k < 0.55:
+        return rng.choice(TMPL_NEIGH) + key + rng.choice(TMPL_NEIGH)
+    parts = [rng.choice(TMPL_KEYS) if rng.random() < 0.45 else rng.choice(TMPL_NEIGH) for _ in range(rng.randint(2, 5))]
+    return ''.join(parts)
 
 
 def gen_io(rng):
@@ -368,6 +399,21 @@ def run(ctx):
         cases.append(tmpl_case('evalcmd'))
     for _ in range(nrand // 60):
         cases.append(('testcmd', gen_list(rng, hi=2) + [MARK] + rng.choice([['/p/t'], ['/py', '/s/t.py']]) + [MARK] + gen_list(rng, hi=4) + [MARK] + gen_list(rng, hi=2)))
+    # small exhaustive enumeration: every argument made of up to 5 (thorough: 6) symbols of
+    # { @, INPUT, OUTPUT, 0, X, x } against a one-file and a two-file dictionary, plus the real keys in every
+    # neighbourhood of TMPL_NEIGH (before, after, both)
+    tsym = ['@', 'INPUT', 'OUTPUT', '0', 'X', 'x']
+    tex = exhaustive_strings(tsym, 6 if thorough else 5)
+    for w in tex:
+        cases.append(('subst', [w, MARK] + tds[1]))
+        if thorough or len(w) <= 12:
+            cases.append(('subst', [w, MARK] + tds[2]))
+    for key in TMPL_KEYS:
+        for nb in TMPL_NEIGH:
+            for w in (nb + key, key + nb, nb + key + nb, key[:-1] + nb if nb.startswith('@') else key + nb + key):
+                cases.append(('subst', [w, MARK] + tds[1]))
+                cases.append(('evalcmd', ['..', '.', '../sub', w, MARK] + tds[2] + [MARK] + ios[2][0] + [MARK] + ios[2][1] + [MARK, 'sub']))
+    ctx.extra['exhaustive_templates'] = {'alphabet': tsym, 'maxlen': 6 if thorough else 5, 'count': len(tex)}
     ex = exhaustive_strings(META20, 3)
     ctx.extra['exhaustive'] = True
     ctx.extra['exhaustive_strings'] = {'alphabet': META20, 'maxlen': 3, 'count': len(ex), 'functions': ['shq', 'nq F', 'nq T', 'rspq']}
@@ -631,6 +677,35 @@ def run(ctx):
         if got != want:
             found.append(('tmpl', 'C03:tmpl:%s' % json.dumps(case[1]), 'eval_custom_target_command rewrites more than the established rewrites: %s -> %s, expected %s'
                           % (json.dumps(cmd)[:300], json.dumps(got)[:300], json.dumps(want)[:300]), {'case': list(case)}))
+    # second template clause, on embedded placeholders in hostile neighbourhoods: after the REAL substitution no
+    # template key of the dictionary remains in any argument (the values used here contain neither @ nor capitals,
+    # so a key in the result can only be a placeholder that was not substituted)
+    kcases = []
+    clean = [j for j in range(len(ios)) if not any('@' in f or f.lower() != f for f in ios[j][0] + ios[j][1]) and ios[j][0] and ios[j][1]]
+    fixed_words = ['owner@HOST@INPUT@', '--tag=@X@OUTPUT@', '@X@OUTDIR@', '@INPUT@OUTPUT@', '@OUTPUT0@INPUT@', '@A@INPUT0@', 'x@Y@@OUTPUT@', '@HOST@PLAINNAME@']
+    for n in range(8000 if thorough else 1500):
+        j = rng.choice(clean)
+        w = fixed_words[n] if n < len(fixed_words) else gen_tmpl_adversarial(rng)
+        if n < len(fixed_words):
+            j = 1
+        if rng.random() < 0.5 or n < len(fixed_words):
+            kcases.append((j, ('subst', [w, MARK] + tds[j])))
+        else:
+            kcases.append((j, ('evalcmd', ['..', '.', '../sub', w, MARK] + tds[j] + [MARK] + ios[j][0] + [MARK] + ios[j][1] + [MARK, 'sub'])))
+    kres = run_impl('c03.py', {'cases': [c for _j, c in kcases], 'scratch': scratch})['results']
+    nk = 0
+    for (j, case), r in zip(kcases, kres):
+        ctx.count(('okey', tuple(case[1])))
+        if not r.startswith('O'):
+            continue
+        nk += 1
+        keys = [e.split(SEP2)[0] for e in tds[j]] + (['@SOURCE_ROOT@', '@BUILD_ROOT@', '@CURRENT_SOURCE_DIR@'] if case[0] == 'evalcmd' else [])
+        left = [(k, a) for a in untlist(r[1:]) for k in keys if k in a]
+        if left:
+            word = case[1][0] if case[0] == 'subst' else case[1][3]
+            found.append(('tmpl:key_left', 'C03:tmpl-key-left:%s' % json.dumps(case[1]), 'placeholder %s of the argument %s is not substituted: %s gives %s'
+                          % (left[0][0], json.dumps(word), case[0], json.dumps(untlist(r[1:]))[:300]), {'case': list(case)}))
+    ctx.extra['oracle_templates'] = {'exact_and_plain': len(tcases), 'embedded_hostile': len(kcases), 'substituted_without_error': nk}
     exe_cases = [c[1] for c in CORPUS_EXE] + [gen_exe_case(rng)[1] for _ in range(6000 if thorough else 1500)]
     esc_cases = [['-DA=\\', '/DB=\\\\', '-I\\', 'x\\', '-D']] + [gen_list(rng, hi=6) for _ in range(3000 if thorough else 600)]
     res = run_impl('c03.py', {'oracle_exe': exe_cases, 'oracle_esc': esc_cases, 'scratch': scratch})
